@@ -16,11 +16,15 @@ package entry
 
 import (
 	"bytes"
+	"context"
 	"encoding/hex"
+	"fmt"
 	"math/big"
 	"testing"
 
 	bn256 "github.com/ethereum/go-ethereum/crypto/bn256/cloudflare"
+	"github.com/keep-network/keep-core/pkg/internal/verifadapt"
+	"github.com/keep-network/keep-core/pkg/net"
 	"github.com/keep-network/keep-core/pkg/protocol/group"
 
 	"verifsim"
@@ -39,6 +43,7 @@ var c03Kinds = []string{
 	"negated-share",               // -(f(b)*entry)
 	"foreign-share-other-message", // f(j)*otherEntry under index j
 	"point-at-infinity",
+	"random-point-foreign-index", // a well-formed non-share under honest j's index (j's real share usually arrived before)
 }
 
 func c03Forge(w *c47World, b *c47Member) ([]byte, string) {
@@ -48,6 +53,7 @@ func c03Forge(w *c47World, b *c47Member) ([]byte, string) {
 		ws[i] = 2
 	}
 	ws[0] = 4
+	ws[1], ws[12] = 4, 4 // a valid share followed by a well-formed invalid one of the same claimed sender
 	k := tp.Weighted("forge-kind", ws...)
 	other := new(bn256.G1).ScalarBaseMult(big.NewInt(int64(7 + tp.Choose("other-entry", 5))))
 	otherSession := hex.EncodeToString(other.Marshal())
@@ -90,6 +96,9 @@ func c03Forge(w *c47World, b *c47Member) ([]byte, string) {
 		share = new(bn256.G1).ScalarMult(other, w.grp.shares[j]).Marshal()
 	case 11:
 		share = make([]byte, 64)
+	case 12:
+		sender = j
+		share = new(bn256.G1).ScalarBaseMult(c47Scalar(tp, "rnd-point")).Marshal()
 	}
 	msg := NewSignatureShareMessage(group.MemberIndex(sender), share, session)
 	payload, err := msg.Marshal()
@@ -129,6 +138,11 @@ func c03Run(t *testing.T, r *verifsim.Run) {
 			return
 		}
 		r.Probe("verified-submission")
+		if w.shape == 1 {
+			r.Probe(fmt.Sprintf("verified-submission-threshold-%d", w.h))
+		} else if w.shape == 2 {
+			r.Probe("verified-submission-wide-group")
+		}
 		if first == nil {
 			first, firstBy = append([]byte(nil), entry...), m.idx
 			return
@@ -141,7 +155,66 @@ func c03Run(t *testing.T, r *verifsim.Run) {
 			r.Probe("second-member-submitted-equal-entry")
 		}
 	}
+	if w.shape != 0 {
+		c03Preload(w)
+	}
 	w.startMembers()
 	w.loop(c03Forge)
 	w.finish()
+}
+
+// c03Preload queues the valid shares of a tape-chosen subset of the members
+// that do not run the protocol (large shapes); each running member takes the
+// first threshold-1 shares the simulator happens to hand it, so different
+// members recover from different subsets.
+func c03Preload(w *c47World) {
+	tp := w.tp
+	var helpers []*c47Member
+	for _, m := range w.members[1:] {
+		if m.helper {
+			helpers = append(helpers, m)
+		}
+	}
+	if len(helpers) == 0 {
+		return
+	}
+	want := w.h + 1 + tp.Choose("contributors-extra", 3)
+	if want > len(helpers) {
+		want = len(helpers)
+	}
+	pick := map[int]bool{}
+	switch mode := tp.Weighted("contributors", 3, 3, 2, 2); mode {
+	case 0: // the highest indexes
+		for i := len(helpers) - want; i < len(helpers); i++ {
+			pick[i] = true
+		}
+	case 1: // a window
+		off := tp.Choose("contributors-offset", len(helpers)-want+1)
+		for i := off; i < off+want; i++ {
+			pick[i] = true
+		}
+	case 2: // the lowest indexes
+		for i := 0; i < want; i++ {
+			pick[i] = true
+		}
+	default:
+		for _, i := range tp.Perm("contributors-perm", len(helpers))[:want] {
+			pick[i] = true
+		}
+	}
+	seq := uint64(1 << 30)
+	for i, b := range helpers {
+		if !pick[i] {
+			continue
+		}
+		share := new(bn256.G1).ScalarMult(w.prev, w.grp.shares[b.idx])
+		payload, err := NewSignatureShareMessage(group.MemberIndex(b.idx), share.Marshal(), w.session).Marshal()
+		if err != nil {
+			panic(err)
+		}
+		seq++
+		w.preload = append(w.preload, &c47Flight{forged: true, env: &verifadapt.Envelope{From: b.node.Index, Channel: c47Channel,
+			Type: (&SignatureShareMessage{}).Type(), Payload: payload, Seqno: seq, Ctx: context.Background(), Strategy: net.StandardRetransmissionStrategy}})
+	}
+	w.r.Logf("preloaded %d contributor shares", len(w.preload))
 }
